@@ -135,6 +135,29 @@ def build() -> Check:
             ck.ob("R3.pending-suspends", construct, not bad3, (bad3[0][0] + ": " + trace_sig(bad3[0][1])) if bad3 else "", cell=st)
     ck.floor("strategy_consultations", n_strat, 8)
 
+    # R1 every failure of the step function reaches the retry strategy. One family is let through on purpose: ExecutionError ("fatal - e.g. checkpoint
+    # exception", the SDK's own verdict that the execution as a whole has failed). Anything wider - the whole UnrecoverableError / InvocationError family,
+    # which the wrapper re-raises for a Lambda retry - re-runs the function on every Lambda retry with no record, no delay and no attempt count (r7_C12)
+    BYPASS_ACCEPTED = {"aws_durable_execution_sdk_python.exceptions.ExecutionError": "the SDK's 'the execution has failed' verdict; the wrapper answers FAILED, nothing is re-run"}
+    n_fail = 0
+    for st in [ABSENT, "STARTED", "READY"]:
+        badb = []
+        for t in pm.run_cell(ci, st, faults=False):
+            raised = [e for e in user_events(t, "user") if e.data.get("outcome") != "return"]
+            if not raised:
+                continue
+            n_fail += 1
+            if user_events(t, "strategy"):
+                continue
+            cls_ = (t.exc_class() or "").rstrip("*")
+            c_ = prog.classes.get(cls_)
+            ok_ = t.outcome == "raise" and c_ is not None and any(c_.fq == a or c_.is_subclass_of(a) for a in BYPASS_ACCEPTED)
+            if not ok_:
+                badb.append((f"a failure of the step function that is a {cls_.split('.')[-1] or t.outcome} leaves the step without the retry strategy being consulted and without a "
+                             "RETRY / FAIL record", t))
+        ck.ob("R1.every-step-failure-reaches-the-strategy", construct, not badb, (badb[0][0] + ": " + trace_sig(badb[0][1])) if badb else "", cell=st)
+    ck.floor("step_function_failure_paths", n_fail, 6)
+
     # step logger attempt == strategy attempt (same def-use): execute() computes attempt once
     ex = ci.methods.get("execute")
     if ex is None:
